@@ -10,11 +10,13 @@ are about running the generated program with the machine semantics `sem`.
 namespace Ledger.C25
 open Ledger.Machine
 
+variable {cfg : Cfg}
+
 /-- One generated statement posts exactly its posting (any balances, any state),
     whenever it succeeds. -/
 theorem statement_roundtrip (env : Env) (accs : List String) (mons : List (String × Int))
     (force : Bool) (p : TxPosting) (hb : txEnvOK env accs mons [p] = true) (st st' : State)
-    (h : evalStmt env (txStmt accs mons force p) st = .ok st') :
+    (h : evalStmt cfg env (txStmt accs mons force p) st = .ok st') :
     st'.postings = st.postings ++ [p] := by
   simp only [txEnvOK, Bool.and_true, Bool.and_eq_true, Bool.or_eq_true, decide_eq_true_eq] at hb
   obtain ⟨⟨hm, hs⟩, hd⟩ := hb
@@ -68,7 +70,7 @@ theorem statement_roundtrip (env : Env) (accs : List String) (mons : List (Strin
     (same order, accounts, assets, amounts, zero amounts included). -/
 theorem statements_roundtrip (env : Env) (accs : List String) (mons : List (String × Int))
     (force : Bool) : (ps : List TxPosting) → txEnvOK env accs mons ps = true → (st st' : State) →
-    runStmts env (ps.map (txStmt accs mons force)) st = .ok st' → st'.postings = st.postings ++ ps
+    runStmts cfg env (ps.map (txStmt accs mons force)) st = .ok st' → st'.postings = st.postings ++ ps
   | [], _, st, st', h => by simp only [List.map_nil, runStmts] at h; cases h; simp
   | p :: ps, hb, st, st', h => by
     simp only [List.map_cons, runStmts] at h
@@ -90,8 +92,8 @@ theorem statements_roundtrip (env : Env) (accs : List String) (mons : List (Stri
     accounts / monetaries they were generated for (a decidable fact about string
     formatting and parsing, evaluated on every generated case; not proved in general). -/
 theorem postings_roundtrip (ps : List TxPosting) (force : Bool) (inp : Input) (r : Result)
-    (h : sem (txScript ps force) inp = .ok r) (env : Env)
-    (henv : resolvedEnv (txScript ps force) inp = some env)
+    (h : sem cfg (txScript ps force) inp = .ok r) (env : Env)
+    (henv : resolvedEnv cfg (txScript ps force) inp = some env)
     (hb : txEnvOK env (txAccounts ps []) (txMons ps []) ps = true) : r.postings = ps := by
   obtain ⟨ds, env', bal, pairs, st, _, hp, hst, rfl⟩ := sem_ok_iff h
   simp only [resolvedEnv, hp, Option.some.injEq] at henv
@@ -108,16 +110,16 @@ def exPostings : List TxPosting :=
 
 def exInput : Input := { vars := txVars exPostings, balance := fun _ _ => 0, accountMeta := fun _ => none }
 
-example : postingsOf (sem (txScript exPostings false) exInput) = some exPostings := by decide +kernel
+example : postingsOf (sem Cfg.fixed (txScript exPostings false) exInput) = some exPostings := by decide +kernel
 
-example : (match resolvedEnv (txScript exPostings false) exInput with
+example : (match resolvedEnv Cfg.fixed (txScript exPostings false) exInput with
     | some env => txEnvOK env (txAccounts exPostings []) (txMons exPostings []) exPostings
     | none => false) = true := by decide +kernel
 
 example : (applyPostings (fun _ _ => 0) exPostings).isSome = true := by decide +kernel
 
 /-- insufficient funds: `a` holds 10 and is asked for 11 -/
-example : postingsOf (sem (txScript [⟨"world", "a", "USD", 10⟩, ⟨"a", "b", "USD", 11⟩] false)
+example : postingsOf (sem Cfg.fixed (txScript [⟨"world", "a", "USD", 10⟩, ⟨"a", "b", "USD", 11⟩] false)
     { exInput with vars := txVars [⟨"world", "a", "USD", 10⟩, ⟨"a", "b", "USD", 11⟩] }) = none := by
   decide +kernel
 
